@@ -15,7 +15,7 @@ func verifC45Case(roundTrip bool) (string, int) {
 	case roundTrip:
 		sizes = []int{0, 1, 2, 3, 4, 20, 33}
 	case verifThorough():
-		sizes = []int{0, 1, 2, 3, 4, 5, 6, 7, 8, 20}
+		sizes = []int{0, 1, 2, 3, 4, 5, 6}
 	}
 	k := 2
 	if roundTrip {
@@ -99,7 +99,7 @@ func VerifC45_SubstitutionRejected() {
 func VerifC45_DecodeArbitrary() {
 	max := 8
 	if verifThorough() {
-		max = 10
+		max = 9
 	}
 	n := verifChoose("len", max+1)
 	s := verifString("s", n)
